@@ -40,6 +40,10 @@ OPTS = [
     ("(u8, bool)", "(1, true)", "(1u8, true)", "tuple"),
     ("u8", "if true { 2 } else { 3 }", "2u8", "if-expr"),
     ("u32", "K32", "77u32", "const-path-into"),
+    # a field type with an inherent associated fn `default()` that differs from its Default impl
+    ("::dxrt::Inh", None, "::dxrt::Inh(1)", "none"),
+    ("::dxrt::Inh", "_", "::dxrt::Inh(1)", "underscore"),
+    ("::dxrt::Inh", "K32", "::dxrt::Inh(77)", "const-path-into"),
 ]
 # expressions for which NO conversion may be inserted: the program must be rejected by rustc
 NEG = [
@@ -55,7 +59,8 @@ BOUNDS = ["", ", bound()", ", bound(..)", ", bound(u8)", ", bound(u8: Copy, ..)"
 
 
 def gen_fields(rng, n=None):
-    n = rng.randint(0, 4) if n is None else n
+    # occasionally more than ten fields: member names / tuple indices whose text order differs from the declaration order
+    n = (rng.choice([11, 12, 13]) if rng.random() < 0.06 else rng.randint(0, 4)) if n is None else n
     fs = []
     for _ in range(n):
         ty, ex, exp, tag = rng.choice(OPTS)
@@ -162,11 +167,11 @@ def altval(f):
     return {"u8": "9u8", "i8": "9i8", "bool": "false", "char": "'q'", "f32": "9.0f32", "::std::string::String": "::std::string::String::new()",
             CONV: conv("alt", "direct"), "u16": "9u16", "::core::option::Option<u8>": "::core::option::Option::None",
             "::std::vec::Vec<u8>": "::std::vec::Vec::new()", "::dxrt::Color": "::dxrt::Color::Green", "(u8, bool)": "(9u8, false)",
-            "u32": "9u32"}[ty]
+            "u32": "9u32", "::dxrt::Inh": "::dxrt::Inh(9)"}[ty]
 
 
 def const_ok(f):
-    return f["ty"] in ("u8", "i8", "bool", "char", "f32", "u16", "::dxrt::Color", "(u8, bool)", "u32", "::core::option::Option<u8>")
+    return f["ty"] in ("u8", "i8", "bool", "char", "f32", "u16", "::dxrt::Color", "(u8, bool)", "u32", "::core::option::Option<u8>", "::dxrt::Inh")
 
 
 def special_const(spec, sv):
@@ -230,6 +235,15 @@ def run(rep, tier, rng):
                 specs.append({"kind": "enum", "variants": [{"style": "unit", "fields": []}, {"style": "tuple", "fields": [f, dict(pad)]},
                                                            {"style": "unit", "fields": []}],
                               "dv": 1, "marker": "#[default]", "type_level": None, "entry": "attr" if k % 3 else "derive"})
+    # more than ten fields, each with its own value
+    for nfl in (11, 12):
+        fl = [{"ty": "u8", "expr": (str(i + 1) if i % 4 else None), "exp": (f"{i + 1}u8" if i % 4 else "0u8"), "tag": "int-lit" if i % 4 else "none", "bound": ""}
+              for i in range(nfl)]
+        for style in ("tuple", "named"):
+            specs.append({"kind": "struct", "variants": [{"style": style, "fields": [dict(x) for x in fl]}], "dv": 0, "marker": None, "type_level": None,
+                          "entry": "attr" if nfl % 2 else "derive"})
+            specs.append({"kind": "enum", "variants": [{"style": "unit", "fields": []}, {"style": style, "fields": [dict(x) for x in fl]}], "dv": 1,
+                          "marker": "#[default]", "type_level": None, "entry": "derive" if nfl % 2 else "attr"})
     n0 = len(specs)
     rep.count("core_types", n0)
     while len(specs) < n0 + NRANDOM[tier]:
